@@ -173,6 +173,8 @@ func c15Transfer(c *h.Ctx, id string, r *rand.Rand) {
 		v := uint64(1 + vi*3)
 		if r.Intn(4) == 0 {
 			v = uint64(1+vi) * 1000003
+		} else if r.Intn(6) == 0 {
+			v = []uint64{253, 254, 255, 256}[vi%4] + uint64(vi/4)*65536
 		}
 		raw, wire := c15Content(r, max(1, size+[]int{0, 0, -1, 1, 8000}[r.Intn(5)]))
 		nm := objName.Clone()
@@ -411,6 +413,9 @@ func c15Stores(c *h.Ctx, id string, r *rand.Rand) {
 		on, _ := enc.NameFromStr(objs[r.Intn(len(objs))])
 		if r.Intn(4) != 0 {
 			v := uint64(1 + r.Intn(5))
+			if r.Intn(4) == 0 { // versions whose encoding ends in 0xff / crosses a byte-length boundary
+				v = []uint64{254, 255, 256, 65535, 65536, 0x12345ff, 0xffffffff}[r.Intn(7)]
+			}
 			raw, _ := c15Content(r, []int{1, 8000, 8001, 17000}[r.Intn(4)])
 			hist = append(hist, fmt.Sprintf("produce %s v=%d size=%d", on, v, len(raw)))
 			for _, cl := range []*object.Client{cm, cb} {
